@@ -598,3 +598,46 @@ pub fn value_x(rng: &mut Rng, regime: Regime) -> f64 {
 pub fn gen_state_x(rng: &mut Rng, ids: &BTreeSet<u64>, regime: Regime) -> v1::State {
     state(ids.iter().map(|i| (*i, value_x(rng, regime))))
 }
+
+// ---------------------------------------------------------------------------------------------
+// order-insensitive views: the order in which an instance lists its variables and constraints is
+// not part of any property, so comparisons pair entries by id
+
+/// pairs two constraint lists by id; None when the id sets differ or an id repeats
+pub fn pair_by_id<'a>(a: &'a [v1::Constraint], b: &'a [v1::Constraint]) -> Option<Vec<(&'a v1::Constraint, &'a v1::Constraint)>> {
+    let ma: BTreeMap<u64, &v1::Constraint> = a.iter().map(|c| (c.id, c)).collect();
+    let mb: BTreeMap<u64, &v1::Constraint> = b.iter().map(|c| (c.id, c)).collect();
+    if ma.len() != a.len() || mb.len() != b.len() || !ma.keys().eq(mb.keys()) {
+        return None;
+    }
+    Some(a.iter().map(|c| (c, mb[&c.id])).collect())
+}
+
+/// the same for removed constraints (entries without a constraint never pair)
+pub fn pair_removed_by_id<'a>(a: &'a [v1::RemovedConstraint], b: &'a [v1::RemovedConstraint]) -> Option<Vec<(&'a v1::RemovedConstraint, &'a v1::RemovedConstraint)>> {
+    let key = |r: &v1::RemovedConstraint| r.constraint.as_ref().map(|c| c.id);
+    let ma: BTreeMap<u64, &v1::RemovedConstraint> = a.iter().filter_map(|r| key(r).map(|k| (k, r))).collect();
+    let mb: BTreeMap<u64, &v1::RemovedConstraint> = b.iter().filter_map(|r| key(r).map(|k| (k, r))).collect();
+    if ma.len() != a.len() || mb.len() != b.len() || !ma.keys().eq(mb.keys()) {
+        return None;
+    }
+    Some(a.iter().map(|r| (r, mb[&key(r).unwrap()])).collect())
+}
+
+/// equal as collections keyed by id (order ignored, repeats significant)
+pub fn same_variables(a: &[v1::DecisionVariable], b: &[v1::DecisionVariable]) -> bool {
+    let mut x: Vec<&v1::DecisionVariable> = a.iter().collect();
+    let mut y: Vec<&v1::DecisionVariable> = b.iter().collect();
+    x.sort_by_key(|v| v.id);
+    y.sort_by_key(|v| v.id);
+    x == y
+}
+
+pub fn same_removed(a: &[v1::RemovedConstraint], b: &[v1::RemovedConstraint]) -> bool {
+    let key = |r: &&v1::RemovedConstraint| r.constraint.as_ref().map(|c| c.id);
+    let mut x: Vec<&v1::RemovedConstraint> = a.iter().collect();
+    let mut y: Vec<&v1::RemovedConstraint> = b.iter().collect();
+    x.sort_by_key(key);
+    y.sort_by_key(key);
+    x == y
+}
